@@ -77,7 +77,7 @@ def check_mapping(reg, model, what, content=None):
         if item.id != key or item.entity.record.id != key:
             raise Violation("ID", "%s: item under key %r has id %r and record id %r" % (
                 what, key, item.id, item.entity.record.id))
-        if not isinstance(item.entity.record, CircularRecord) or item.record is not item.entity.record:
+        if not isinstance(item.entity.record, CircularRecord):
             raise Violation("RECORD", "%s: %r does not hold a circular record" % (what, key))
         if item.resistance not in ANTIBIOTICS:
             raise Violation("RESISTANCE", "%s: %r has resistance %r" % (what, key, item.resistance))
